@@ -47,6 +47,10 @@ CLAIMED["C11"] = ("mirsym over get_quote_to_use (symbolic literal), format_funct
     "bounded symbolic model checking of the decision kernels: quote choice for every literal of <=4 characters x 4 styles; call form for every call_parentheses value x argument shape x obscurity; spaces(1) exactly for the option values that name it",
     "trusts rustc's MIR printer, mirsym, z3; 'every layout path of every construct' beyond these kernels is outside", "5/C11")
 
+CLAIMED["C12"] = ("mirsym over partition_nodes_into_groups (one loop step from an arbitrary parts tail), the ignore-guard closure, sort_requires' rebuild step and format_ast's enabled test; z3; require-block battery replay",
+    "bounded symbolic model checking of the kernels: a group boundary is opened iff first / after Other / kind differs / more than one line after the END of the previous require; Skip or NotInRange members block sorting; sortable groups get one stable sort_by_key; the new first member keeps its own leading trivia; sorting runs iff enabled",
+    "trusts rustc's MIR printer, mirsym, z3, std's stable sort; get_expression_kind's string tests and update_positions are outside", "5/C12")
+
 NOT_YET = {}
 
 NA = {
